@@ -1,6 +1,7 @@
 (* Props/C10.v — calibration and quantization select the same ops. *)
 From VF Require Import Base.Prelude Gen.Enums Gen.Configs Gen.Scopes
      Model.Recipe Model.Check Model.Graph Model.Plan Model.Calib.
+From VF Require Import Gen.Registry Gen.Checks Model.Calib Proofs.CalibProofs Proofs.ResumeProofs Proofs.PlanProofs.
 
 (* The two scope functions (regenerated from calibrator.py and
    params_generator.py on every run) build the same token list for EVERY list
@@ -63,3 +64,39 @@ Example C10_nonvacuous :
   scope_calibrator [3; -1; 5] = [TName 3; TLit 59; TName 5; TLit 59] /\
   scope_params_generator [3; -1; 5] = [TName 3; TLit 59; TName 5; TLit 59].
 Proof. split; reflexivity. Qed.
+
+(* NO MISSING STATISTICS, the two halves.
+   (a) calibration side: after ONE sample, every present, non-constant operand
+       or result of every operator of the calibrated subgraph that the recipe
+       selects for the min/max algorithm (real ops and the accumulated virtual
+       INPUT/OUTPUT operators alike) has an entry in the store — and entries
+       never disappear (C09);
+   (b) quantization side: plan generation raises "statistics are required"
+       for a tensor ONLY when that tensor is a runtime tensor without an entry;
+       every other error of the per-tensor wrapper is a config error, which
+       the support check excludes (C08/C13).
+   Since both sides resolve every operator identically (C10_scope_eq,
+   C10_same_resolution), quantize(calibrate()) cannot fail for missing
+   statistics on the calibrated subgraph.  (The composition of (a) and (b)
+   through the materializers is executed on every case by correspondence K/P
+   and the oracle, not stated as one Coq theorem.) *)
+Theorem C10_calibration_records_every_runtime_operand_of_selected_ops :
+  forall matches rules bufs scope_id m gi g ad copies k s s' op c o x t,
+    one_sample_gen matches rules bufs scope_id m gi g ad copies k s = Ok s' ->
+    In op (real_cops scope_id gi (m_opcodes m) g ad ++ concat (repeat (io_cops scope_id gi g) copies)) ->
+    selected matches rules op = Some (AK Alg_MIN_MAX_UNIFORM_QUANT, c, o) ->
+    In x (present (co_ins op) ++ present (co_outs op)) ->
+    py_index (sg_tensors g) x = Ok t -> is_const bufs t = false ->
+    has_key s' (tname t).
+Proof. intros. eapply sample_covers; eassumption. Qed.
+Print Assumptions C10_calibration_records_every_runtime_operand_of_selected_ops.
+
+Theorem C10_missing_statistics_only_for_absent_runtime_entry :
+  forall bufs s o opid adjy c t inbound e,
+    wrapper bufs s o opid adjy c t inbound None = Err e ->
+    (store_get s (tname t) = None /\ is_const bufs t = false /\ e = ValueError) \/
+    (is_blockwise c && is_const bufs t = true /\ e = OtherError) \/
+    (exists tc, chosen_cfg bufs o c t = Some tc /\ param_qdim o tc t (is_const bufs t) adjy = Err e) \/
+    (exists const, get_tensor_transformations c inbound const = Err e).
+Proof. exact wrapper_error. Qed.
+Print Assumptions C10_missing_statistics_only_for_absent_runtime_entry.
